@@ -110,6 +110,26 @@ def power (d : Dec) (p : Nat) : Dec :=
     let (d', tmp) := powerLoop 64 p d one
     mul d' tmp
 
+/-- 2^256 · 10^18: `assertInValidRange` panics ("Int overflow") when |raw| exceeds it -/
+def RANGE : Int := 115792089237316195423570985008687907853269984665640564039457584007913129639936 * 1000000000000000000
+def inRange (d : Dec) : Bool := decide (d.raw ≤ RANGE ∧ -RANGE ≤ d.raw)
+
+/-- PowerMut with the range assertion after every MulMut (`none` = Go panics with "Int overflow") -/
+def powerLoopC : Nat → Nat → Dec → Dec → Option (Dec × Dec)
+  | 0, _, d, tmp => some (d, tmp)
+  | fuel+1, i, d, tmp =>
+    if i > 1 then
+      let tmp' := if i % 2 != 0 then mul tmp d else tmp
+      let d' := mul d d
+      if !tmp'.inRange || !d'.inRange then none else powerLoopC fuel (i / 2) d' tmp'
+    else some (d, tmp)
+
+def powerC (d : Dec) (p : Nat) : Option Dec :=
+  if p = 0 then some one
+  else match powerLoopC 64 p d one with
+    | none => none
+    | some (d', tmp) => let r := mul d' tmp; if r.inRange then some r else none
+
 /-- Power with a Go uint64 exponent carried as Int -/
 def powerI (d : Dec) (p : Int) : Dec := power d p.toNat
 
